@@ -52,6 +52,10 @@ type Flat struct {
 	Alias map[types.Object]ast.Expr
 	// noInline: functions whose calls are never spliced in
 	noInline map[string]bool
+	// WalkMaxVisits bounds how often WalkPath may pass one node (default 1: loop-free paths only);
+	// WalkExprStmts makes it evaluate expression statements too (for hooks that record calls)
+	WalkMaxVisits int
+	WalkExprStmts bool
 }
 
 func (p *Prog) mayReturn(pkg *packages.Package) func(*ast.CallExpr) bool {
